@@ -82,10 +82,18 @@ func c29Charts() []struct {
 			"world": mleaf(),
 			"users": {VarLabel: "uid", Var: &Node{Self: true, HasMeta: true, Meta: map[string]*string{"lvl": sp("0"), "note": nil}, Fixed: map[string]*Node{"wallet": mleaf()}}},
 		}},
+		// a fixed child that is a pure branch (sub-segments, not an account itself) next to
+		// a patternless variable child that IS an account: `users:pending` names the fixed
+		// branch, which is not an account, and must not fall through to the variable sibling
+		// (seeded change C29); `users:pending:kyc` and `users:u1` are accepted
+		{"fixed-branch-next-to-variable-account", Chart{
+			"world": mleaf(),
+			"users": {Fixed: map[string]*Node{"pending": {Fixed: map[string]*Node{"kyc": mleaf()}}}, VarLabel: "uid", Var: mleaf("kind", "customer")},
+		}},
 	}
 }
 
-var c29Accounts = []string{"bank", "bank:001", "bank:x1", "bank:main", "bank:001:main", "bank:x1:main", "users:u1", "users:u1:wallet"}
+var c29Accounts = []string{"bank", "bank:001", "bank:x1", "bank:main", "bank:001:main", "bank:x1:main", "users:u1", "users:u1:wallet", "users:pending", "users:pending:kyc"}
 
 // refState is the reference model of what C29 talks about: which schema versions
 // exist and the metadata of every account that exists.
@@ -646,7 +654,7 @@ func runC29() int {
 		"samples":             c.samples.List(),
 		"exhaustive":          complete,
 		"rule": "evaluation = one write applied through the real system controller (strict or audit enforcement) on a clone of a pgsim start state holding two schema versions, with the property's verdict derived from the reference chart matcher; " +
-			"single-write group: 4 charts (pattern+defaults, .self with non-account variable, fixed and variable siblings, patternless variable with .self and child) x {templates defined, not} x every postings list [world->X] and [world->X, X->Y] over 8 accounts (accepted / rejected / partially accepted by the chart) x {strict, audit} x {latest version, older version, no version, unknown version} x {plain postings, template}; " +
+			"single-write group: 5 charts (pattern+defaults, .self with non-account variable, fixed and variable siblings, patternless variable with .self and child, fixed pure-branch child next to a variable account) x {templates defined, not} x every postings list [world->X] and [world->X, X->Y] over 10 accounts (accepted / rejected / partially accepted by the chart) x {strict, audit} x {latest version, older version, no version, unknown version} x {plain postings, template}; " +
 			"other-writes group: account/transaction metadata set and delete, revert x mode x version; default-metadata group: every sequence of length<=depth over 21 operations (create by metadata / by transaction, explicit value on a default key, transaction-level account metadata, delete, account outside the chart; each under v1, v2 with different defaults, and without version) in both modes; " +
 			"after every write: rejected => database dump unchanged, accepted/rejected as the property requires, metadata of every account equals the reference (defaults of the named version's chart at first creation only, explicit values win, nothing overwritten later). distinct_nontrivial = writes whose expected verdict depends on a schema rule (not plain valid writes)",
 		"default_metadata_sequence_depth": ev.Pick(r, 2, 3),
